@@ -14,6 +14,9 @@ enum L {
     ArbiterDisconnect,
     ResolveOldest(&'static str),
     ResolveNewest(&'static str),
+    /// the answer that was given last for this key is sent once more (same id, version and value) while
+    /// other conflicts of the key may still be waiting: a duplicate must not change what is pending
+    ResolveAgain(&'static str),
     /// the connected arbiter goes and a new one registers (one letter, so that sequences with
     /// several registrations stay within the depth bound)
     ArbiterReconnect,
@@ -39,6 +42,8 @@ pub struct W {
     value: BTreeMap<String, String>,
     unresolved: BTreeMap<String, Vec<Notice>>,
     last_resolution: BTreeMap<String, String>,
+    /// the notice answered last per key, and the value it was answered with
+    last_answered: BTreeMap<String, (Notice, String)>,
     steps: usize,
 }
 
@@ -90,7 +95,7 @@ impl SeqModel for C13 {
             writer.exec(&node, &format!("set {} i1", k));
             value.insert(k.to_string(), "i1".to_string());
         }
-        let mut w = W { node, admin, writer, arbiter: None, registered_ever: false, value, unresolved: BTreeMap::new(), last_resolution: BTreeMap::new(), steps: 0 };
+        let mut w = W { node, admin, writer, arbiter: None, registered_ever: false, value, unresolved: BTreeMap::new(), last_resolution: BTreeMap::new(), last_answered: BTreeMap::new(), steps: 0 };
         w.node.drain_queues();
         w
     }
@@ -102,7 +107,7 @@ impl SeqModel for C13 {
         rank_opp_ids(&mut all);
         let watchers = with_db(&w.node.dbs, "t", |db| watcher_counts(db));
         // conflict keys carry op ids in their names: rank them too
-        let txt = format!("{:?}|{:?}|{:?}|{:?}|{}|{}", all, watchers, w.value, w.unresolved, w.arbiter.is_some(), w.registered_ever);
+        let txt = format!("{:?}|{:?}|{:?}|{:?}|{}|{}|{:?}", all, watchers, w.value, w.unresolved, w.arbiter.is_some(), w.registered_ever, w.last_answered);
         canon(&txt)
     }
     fn enabled(&self, w: &W, letter: usize) -> bool {
@@ -111,6 +116,7 @@ impl SeqModel for C13 {
             L::ArbiterDisconnect | L::ArbiterReconnect => w.arbiter.is_some(),
             L::ResolveOldest(k) => w.arbiter.is_some() && w.unresolved.get(*k).map(|u| !u.is_empty()).unwrap_or(false),
             L::ResolveNewest(k) => w.arbiter.is_some() && w.unresolved.get(*k).map(|u| u.len() >= 2).unwrap_or(false),
+            L::ResolveAgain(k) => w.arbiter.is_some() && w.last_answered.contains_key(*k),
             _ => true,
         }
     }
@@ -246,6 +252,7 @@ impl SeqModel for C13 {
                     return v("resolve-failed", format!("`{}`: {:?}", line, o));
                 }
                 w.last_resolution.insert(key.clone(), val.clone());
+                w.last_answered.insert(key.clone(), (n.clone(), val.clone()));
                 let entries = conflict_entries(w, k);
                 match entries.get(&n.id) {
                     Some(e) if e.starts_with("resolved") => {}
@@ -266,6 +273,40 @@ impl SeqModel for C13 {
                     w.value.insert(key, val);
                 } else if ver >= 0 {
                     return v("key-left-conflict-early", format!("{} still has {} unresolved conflict(s) but its version is {} (writes no longer queue)", k, remaining, ver));
+                }
+                vec![]
+            }
+            L::ResolveAgain(k) => {
+                let key = k.to_string();
+                let (n, val) = w.last_answered.get(&key).cloned().unwrap();
+                let remaining = w.unresolved.get(&key).map(|u| u.len()).unwrap_or(0);
+                let before = with_db(&w.node.dbs, "t", |db| dump_db(db).get(*k).map(|x| (x.value.clone(), x.version))).flatten().unwrap_or_default();
+                let line = format!("resolve {} t {} {} {}", n.id, k, n.version, val);
+                let o = w.arbiter.as_mut().unwrap().exec(&w.node, &line);
+                w.node.drain_queues();
+                if o.panic.is_some() {
+                    return v("resolve-failed", format!("duplicate `{}`: {:?}", line, o));
+                }
+                // whatever the reply: what is pending, and whether writes to the key queue, stays as it was
+                let entries = conflict_entries(w, k);
+                let pending_impl = entries.values().filter(|e| !e.starts_with("resolved")).count();
+                if pending_impl != remaining {
+                    return v("pending-count-wrong", format!("after the duplicate `{}`: {} unresolved in the reference, entries {:?}", line, remaining, entries));
+                }
+                let (got, ver) = with_db(&w.node.dbs, "t", |db| dump_db(db).get(*k).map(|x| (x.value.clone(), x.version))).flatten().unwrap_or_default();
+                if remaining > 0 && ver >= 0 {
+                    return v("key-left-conflict-early", format!("{} still has {} unresolved conflict(s) but after the duplicate `{}` its version is {} (writes no longer queue)", k, remaining, line, ver));
+                }
+                if remaining == 0 {
+                    // (a duplicate answer may or may not be applied again - the statement does not say; the key must
+                    // stay writable, and the reference follows whichever value the node now serves)
+                    if ver < 0 {
+                        return v("key-not-writable-after-resolution", format!("every conflict of {} was resolved; after the duplicate `{}` its version is {}", k, line, ver));
+                    }
+                    if got != before.0 && got != val {
+                        return v("last-resolution-lost", format!("the duplicate `{}` turned {:?} into {:?}", line, before, (got, ver)));
+                    }
+                    w.value.insert(key, got);
                 }
                 vec![]
             }
@@ -327,6 +368,7 @@ pub fn run(run: &mut Run) {
         letters.push(L::SetSafeFresh(k));
         letters.push(L::ResolveOldest(k));
         letters.push(L::ResolveNewest(k));
+        letters.push(L::ResolveAgain(k));
     }
     if quick {
         letters.push(L::ResolveOldest("j"));
